@@ -66,7 +66,7 @@ def _cases(draw, nmax):
                 "u_read": draw(st.sampled_from(UNITS))}
     # what the built aggregate is used for before its operators are read (the built operators must stay the site-basis
     # Frenkel ones whatever else is done with the aggregate)
-    uses = draw(st.lists(st.sampled_from(["diagonalize", "read-in-eigenbasis", "read"]), max_size=2))
+    uses = draw(st.lists(st.sampled_from(["diagonalize", "read-in-eigenbasis", "read", "ham-there-and-back-in-units"]), max_size=2))
     return {"N": n, "E": E, "J": J, "d": d, "mult": mult, "perm": list(perm), "uses": uses,
             "rebuild_shift": draw(st.sampled_from([0, 0, 130, -75])),
             "u_in": draw(st.sampled_from(UNITS)), "u_build": draw(st.sampled_from(UNITS)), "geom": geom}
@@ -145,6 +145,12 @@ def check_case(case, ctx):
                 agg.diagonalize()
             elif u == "read":
                 read_HD(qr, agg)
+            elif u == "ham-there-and-back-in-units":
+                # the Hamiltonian object is diagonalised and brought back while other energy units are current
+                hh = agg.get_Hamiltonian()
+                with qr.energy_units("1/cm"):
+                    hh.diagonalize()
+                    hh.undiagonalize()
             else:
                 with qr.eigenbasis_of(agg.get_Hamiltonian()):
                     read_HD(qr, agg)
